@@ -132,6 +132,8 @@ func c05Units(tier string, seed int64) []Unit {
 				d := &LazyDFS{Prog: prog, Cfg: cfg, Alphabet: func(string) []Beh { return c05Alpha }, P: 28, MaxDev: 1}
 				if !quick {
 					d.P, d.MaxDev, d.MaxRuns = 96, 2, 40000
+				} else if pi == 2 {
+					d.P = 10 // every invocation of the deep-recursion program formats a 45-frame traceback
 				}
 				c.R.Bounds = fmt.Sprintf("deviations<=%d on the first %d inputs incl. minimization candidates; all cut points (quick: Fibonacci)", d.MaxDev, d.P)
 				d.Explore(c, func(log *RunLog, assign []KV, devs int) {
@@ -321,7 +323,7 @@ func init() {
 			"every cut result is a state of the uncut run. distinct = distinct (class, site, #accepted steps); non-trivial = at least one minimization step was accepted.",
 		Assumptions: []string{"site = (callback context, failure kind) of the effective fatal signal; all non-fatal-only failures are one site, as the statement defines"},
 		Units:       c05Units,
-		Budget:      map[string]time.Duration{"quick": 55 * time.Second, "thorough": 25 * time.Minute},
+		Budget:      map[string]time.Duration{"quick": 90 * time.Second, "thorough": 25 * time.Minute},
 	})
 }
 
